@@ -27,6 +27,7 @@ import (
 // Cfg selects volume size, alphabet, budgets and oracles of one E-A search.
 type Cfg struct {
 	Blocks    int      `json:"blocks"`
+	Tail      int      `json:"tail_sectors"` // extra 512-byte sectors after the last whole block (a volume size that is not a 4 KiB multiple)
 	Punch     bool     `json:"punch"`
 	Alphabet  []string `json:"alphabet"` // event templates
 	WShapes   [][2]int `json:"wshapes"`  // (offset,len) in sectors
@@ -211,7 +212,7 @@ func (x *inst) boot() error {
 	if err := os.MkdirAll(x.dir, 0755); err != nil {
 		return err
 	}
-	if err := x.srv.Create(int64(x.cfg.Blocks) * Block); err != nil {
+	if err := x.srv.Create(int64(x.cfg.Blocks)*Block + int64(x.cfg.Tail)*Sector); err != nil {
 		return fmt.Errorf("create: %v", err)
 	}
 	if err := x.srv.Open(); err != nil {
@@ -220,7 +221,7 @@ func (x *inst) boot() error {
 	if err := x.srv.SetReplicaMode("RW"); err != nil {
 		return err
 	}
-	x.m = NewModel(x.cfg.Blocks * SPB)
+	x.m = NewModel(x.cfg.Blocks*SPB + x.cfg.Tail)
 	x.m.Open = true
 	x.m.Mode = "RW"
 	return nil
@@ -238,10 +239,10 @@ var templates = map[string]*template{}
 
 func (x *inst) bootFromTemplate(cfg *Cfg) error {
 	kb, _ := json.Marshal(struct {
-		B int
-		P bool
-		I []string
-	}{cfg.Blocks, cfg.Punch, cfg.InitOps})
+		B, T int
+		P    bool
+		I    []string
+	}{cfg.Blocks, cfg.Tail, cfg.Punch, cfg.InitOps})
 	h := sha1.Sum(kb)
 	key := fmt.Sprintf("%x", h[:8])
 	t := templates[key]
